@@ -1,5 +1,6 @@
 import CvssVerif.Model.V3
 import CvssVerif.Model.V2
+import CvssVerif.Driver.Dump
 import CvssVerif.Driver.Ext
 /-
   `cvssmodel`: reads operation lines on stdin, executes them on the Lean model, prints one
@@ -8,95 +9,6 @@ import CvssVerif.Driver.Ext
 open CvssVerif
 
 namespace Drv
-
-def hex16 (n : Nat) : String :=
-  let ds := (List.range 16).reverse.map fun i => hexDigit ((n >>> (4 * i)) % 16)
-  String.ofList ds
-
-def errTag : Option Err → String
-  | none => "-"
-  | some e => e.tag
-
-def commaJoin (xs : List String) : String := ",".intercalate xs
-
-def levelOf (s : String) : Option Level :=
-  if s == "B" then some .base else if s == "T" then some .temporal
-  else if s == "E" then some .environmental else none
-
-def levelsUpTo (L : Level) : List Level := Level.all.filter fun l => l.le L
-
-def dump3 (L : Level) (o : V3.Obj3) : String :=
-  let ms := V3.msOf L
-  let ls := levelsUpTo L
-  let f := commaJoin (ms.map fun m => toString (o.field m))
-  let n := String.ofList (ms.map fun m => if o.named m then '1' else '0')
-  let s := commaJoin (ls.map fun l => hex16 (V3.score l o))
-  let sv := commaJoin (ls.map fun l => toString (V3.severity l o))
-  let enc := commaJoin (ls.map fun l => let p := V3.encode l o; toHex p.1 ++ "|" ++ errTag p.2)
-  let ge := commaJoin (ls.map fun l => errTag (V3.getError l o))
-  let fc := commaJoin (ms.map fun m => bytesToStr (m.spec.str (o.field m)))
-  let svn := commaJoin (ls.map fun l => bytesToStr (V3.severityName (V3.severity l o)))
-  let se := String.ofList (ls.map fun _ => '1')
-  s!"v={o.ver} vl={bytesToStr (V3.verStr o.ver)} f={f} fc={fc} n={n} s={s} sv={sv} svn={svn} enc={enc} ge={ge} se={se}"
-
-def dropKey (d key : String) : String :=
-  " ".intercalate ((d.splitOn " ").filter fun tok => !(tok.startsWith (key ++ "=")))
-
-def nthCsv (csv : String) (i : Nat) : String := ((csv.splitOn ",")[i]?).getD "?"
-
-/-- `rt`: decoding the object's own encoding again gives the same observable state;
-    `pv`: each lower-level view equals a fresh lower-level decode of the view's encoding -/
-def flags3 (L : Level) (o : V3.Obj3) : String :=
-  let d := dump3 L o
-  let (o2, e2) := V3.decode L V3.Obj3.new (V3.encode L o).1
-  let rt := if e2.isNone && dropKey (dump3 L o2) "n" == dropKey d "n" then "1" else "0"
-  let lows := (levelsUpTo L).filter (· != L)
-  let pv := String.ofList (lows.map fun l =>
-    let (ol, el) := V3.decode l V3.Obj3.new (V3.encode l o).1
-    if el.isNone && V3.score l ol == V3.score l o && V3.severity l ol == V3.severity l o
-       && V3.encode l ol == V3.encode l o then '1' else '0')
-  s!" rt={rt} pv={if pv == "" then "-" else pv}"
-
-def opD3 (L : Level) (vec : Bytes) (nilRecv : Bool) : String :=
-  let (o, e) := V3.decode L V3.Obj3.new vec
-  let head := s!"r={if e.isNone then "1" else "0"} e={errTag e}"
-  if nilRecv && e.isSome then head
-  else head ++ " " ++ dump3 L o ++ (if dump3 L o == dump3 L o then " q2=1" else " q2=0")
-    ++ (if e.isNone then flags3 L o else "")
-
-def dump2 (L : Level) (o : V2.Obj2) : String :=
-  let ms := V2.msOf L
-  let ls := levelsUpTo L
-  let f := commaJoin (ms.map fun m => toString (o.field m))
-  let n := String.ofList (ms.map fun m => if o.named m then '1' else '0')
-  let s := commaJoin (ls.map fun l => hex16 (V2.score l o))
-  let sv := commaJoin (ls.map fun l => toString (V2.severity l o))
-  let enc := commaJoin (ls.map fun l => let p := V2.encode l o; toHex p.1 ++ "|" ++ errTag p.2)
-  let ge := commaJoin (ls.map fun l => errTag (V2.getError l o))
-  let fc := commaJoin (ms.map fun m => bytesToStr (m.spec.str (o.field m)))
-  let svn := commaJoin (ls.map fun l => bytesToStr (V2.severityName (V2.severity l o)))
-  let se := String.ofList (ls.map fun _ => '1')
-  let emp := commaJoin ((ls.filter (· != .base)).map fun l =>
-    toString (if l == .temporal then V2.tempEmpty o else V2.envEmpty o))
-  s!"f={f} fc={fc} n={n} s={s} sv={sv} svn={svn} enc={enc} ge={ge} se={se} emp={emp}"
-
-def flags2 (L : Level) (o : V2.Obj2) : String :=
-  let d := dump2 L o
-  let (o2, e2) := V2.decode L V2.Obj2.new (V2.encode L o).1
-  let rt := if e2.isNone && dropKey (dump2 L o2) "n" == dropKey d "n" then "1" else "0"
-  let lows := (levelsUpTo L).filter (· != L)
-  let pv := String.ofList (lows.map fun l =>
-    let (ol, el) := V2.decode l V2.Obj2.new (V2.encode l o).1
-    if el.isNone && V2.score l ol == V2.score l o && V2.severity l ol == V2.severity l o
-       && V2.encode l ol == V2.encode l o then '1' else '0')
-  s!" rt={rt} pv={if pv == "" then "-" else pv}"
-
-def opD2 (L : Level) (vec : Bytes) (nilRecv : Bool) : String :=
-  let (o, e) := V2.decode L V2.Obj2.new vec
-  let head := s!"r={if e.isNone then "1" else "0"} e={errTag e}"
-  if nilRecv && e.isSome then head
-  else head ++ " " ++ dump2 L o ++ (if dump2 L o == dump2 L o then " q2=1" else " q2=0")
-    ++ (if e.isNone then flags2 L o else "")
 
 def compact (line : String) : String :=
   let keep := ["r", "e", "s", "sv", "svn"]
